@@ -654,6 +654,113 @@ def property_verdict(M, t1, t2):
     return "accept"
 
 
+# ---- Processor.run_state with its options -----------------------------------------------------------------------------
+RUN_ENTRIES = ["Processor", "OptPulseProcessor", "LinearSpinChain", "CircularSpinChain", "SCQubits"]
+RUN_OPTS = {
+    "args": [None, "empty", "omega"],            # absent | {} | {"omega": 2.0}
+    "noisy": [None, True, False],                # default (True) | explicit
+    "c_ops": [None, "one", "list"],              # extra collapse operators of the caller: a single Qobj | a list
+    "e_ops": [None, "num"],                      # expectation values instead of states
+    "options": [None, "tight", "maxstep"],       # solver options dict
+    "tlist": ["list", "ndarray"],
+    "solver": [None, "mesolve"],
+    "init": ["dm", "ket", "states-kw"],          # density matrix | ket | the old keyword `states=`
+    "pulse": [False, True],                      # a switched-off pulse that only defines the duration of the idle run
+}
+
+
+def embed_on(dims, q, M):
+    qutip = _impl()[0]
+    return qutip.tensor([qutip.Qobj(M) if i == q else qutip.qeye(d) for i, d in enumerate(dims)])
+
+
+def run_state_case(entry, N, dims_in, t1, t2, opts, state, seed, rates):
+    """run_state of an idle processor with the given options.  `rates`: squared prefactors (destroy, num) per subsystem the
+    relaxation is specified to have.  -> (times, got, expected, tol, what) where got/expected are lists of arrays (states,
+    absolute values for processors with a diagonal drift) or of expectation-value vectors"""
+    qutip = _impl()[0]
+    from qutip_qip import device
+    if entry == "Processor":
+        p = device.Processor(len(dims_in), dims=list(dims_in), t1=py_T(t1), t2=py_T(t2))
+    elif entry == "OptPulseProcessor":
+        p = device.OptPulseProcessor(N, drift=qutip.tensor([qutip.sigmaz()] * N) * 0.0, t1=py_T(t1), t2=py_T(t2))
+    else:
+        p = getattr(device, entry)(N, t1=py_T(t1), t2=py_T(t2))
+    dims = [int(d) for d in p.dims]
+    M = len(dims)
+    rates = [list(r) for r in rates]
+    times = time_grid(dims, t1, t2)
+    scale = times[-1]
+    if opts.get("noisy") is False:
+        rates = [[0.0, 0.0] for _ in dims]
+    kw = {}
+    if opts.get("args") == "empty":
+        kw["args"] = {}
+    elif opts.get("args") == "omega":
+        kw["args"] = {"omega": 2.0}
+    if opts.get("noisy") is not None:
+        kw["noisy"] = opts["noisy"]
+    g = 0.7 / scale
+    if opts.get("c_ops") == "one":
+        kw["c_ops"] = np.sqrt(g) * embed_on(dims, 0, qutip.num(dims[0]).full())
+        rates[0][1] += g
+    elif opts.get("c_ops") == "list":
+        kw["c_ops"] = [np.sqrt(g) * embed_on(dims, 0, qutip.num(dims[0]).full()),
+                       np.sqrt(g / 2) * embed_on(dims, M - 1, qutip.num(dims[M - 1]).full())]
+        rates[0][1] += g
+        rates[M - 1][1] += g / 2
+    e_ops = None
+    if opts.get("e_ops") == "num":
+        e_ops = [embed_on(dims, q, qutip.num(dims[q]).full()) for q in range(M)]
+        kw["e_ops"] = e_ops
+    tol = 1e-6
+    if opts.get("options") == "tight":
+        kw["options"] = {"nsteps": 200000, "atol": 1e-12, "rtol": 1e-10}
+    elif opts.get("options") == "maxstep":
+        kw["options"] = {"nsteps": 200000, "atol": 1e-11, "rtol": 1e-9, "max_step": scale / 40, "store_states": True}
+    else:
+        tol = 5e-5          # QuTiP's default tolerances
+    kw["tlist"] = np.array(times) if opts.get("tlist") == "ndarray" else list(times)
+    if opts.get("pulse") or opts.get("noisy") is False:
+        # (without any pulse get_qobjevo(noisy=False) has nothing to sum: `sum([])` is the int 0 and run_state raises
+        # AttributeError - an idle run without noise needs at least a switched-off pulse; observation, not part of C15)
+        from qutip_qip.pulse import Pulse
+        p.add_pulse(Pulse(qutip.qeye(dims[0]), 0, tlist=np.array([0.0, scale]), coeff=False))
+    if opts.get("solver"):
+        kw["solver"] = opts["solver"]
+    rho0 = initial_state("plus" if opts.get("init") == "ket" else state, dims, seed)
+    if opts.get("init") == "ket":
+        v = np.ones(1, dtype=complex)
+        for d in dims:
+            w = np.zeros(d, dtype=complex); w[0] = w[1] = 1 / np.sqrt(2)
+            v = np.kron(v, w)
+        init = qutip.Qobj(v.reshape(-1, 1), dims=[dims, [1] * M])
+    else:
+        init = qutip.Qobj(rho0, dims=[dims, dims])
+    guard, _ = tidyup_guard([x for r in rates for x in r])
+    with guard:
+        if opts.get("init") == "states-kw":
+            res = p.run_state(states=init, **kw)
+        else:
+            res = p.run_state(init, **kw)
+    diag_drift = entry == "SCQubits"
+    exp_states = [explicit_state(rho0, dims, rates, t) for t in times]
+    if e_ops is not None and not (opts.get("options") == "maxstep"):
+        got = [np.array([res.expect[q][k] for q in range(M)]).real for k in range(len(times))]
+        expd = [np.array([np.trace(e.full() @ st).real for e in e_ops]) for st in exp_states]
+        return times, got, expd, tol, "expectation values <n_q>"
+    got = [(st if st.isoper else qutip.ket2dm(st)).full() for st in res.states]
+    if diag_drift:
+        # the SC-qubit drift (anharmonicity) is diagonal: it leaves the populations alone but rotates the 1-2 coherence that
+        # feeds the 0-1 coherence with another frequency - only the diagonal of rho follows the idle solution
+        return times, [np.diag(x).real for x in got], [np.diag(x).real for x in exp_states], tol, "populations diag(rho)"
+    return times, got, exp_states, tol, "rho"
+
+
+def run_opts_text(opts):
+    return ", ".join(f"{k}={v}" for k, v in sorted(opts.items()) if v is not None) or "defaults"
+
+
 SOL_TOL = 5e-8     # mesolve is run with atol 1e-12 / rtol 1e-10 (measured worst deviation ~6e-10)
 
 
@@ -759,6 +866,8 @@ class C15(PropertyCheck):
             "mixed, GHZ}) with mesolve's rho(t) at 4 times against the explicit solution with the model's prefactors; the "
             "explicit targets = every ordered non-empty subset of the subsystems with per-subsystem lists, RelaxationNoise used "
             "directly and via Processor.add_noise (oracle kind 'targets': one object, repeated uses, other processor sizes); the "
+            "run_state options = 5 entry points x all (args, noisy, caller's c_ops) combinations, e_ops / options / tlist form / solver "
+            "keyword / ket, density matrix, `states=` / idle pulse cycled; "
             "validation = every processor entry point (6 processor classes + Processor(model=<4 Model classes>)) x exhaustive alphabet of "
             "11 x 13 (t1, t2) values and forms (float / numpy float / list / ndarray), verdict and operators; "
             "construction histories = several processors built from the same t1/t2 containers (list/ndarray/scalar), in-place edits "
@@ -879,6 +988,107 @@ class C15(PropertyCheck):
                 res.disagree(inp, f"explicit rho({t:.4g})[{i},{j}] = {exp[i, j]:.9f}", f"mesolve {st[i, j]:.9f}",
                              f"mesolve's state differs from the explicit solution by {err:.3g}", wit)
                 return
+
+    def _run_block(self, ctx, res):
+        rng = ctx.rng
+        k = 0
+        keys = ["e_ops", "options", "tlist", "solver", "init"]
+        for entry in RUN_ENTRIES:
+            for a in RUN_OPTS["args"]:
+                for nz in RUN_OPTS["noisy"]:
+                    for c in RUN_OPTS["c_ops"]:
+                        k += 1
+                        if not ctx.thorough and entry in ("OptPulseProcessor", "CircularSpinChain") and k % 3:
+                            continue
+                        opts = {"args": a, "noisy": nz, "c_ops": c}
+                        for i, key in enumerate(keys):
+                            opts[key] = RUN_OPTS[key][(k // (i + 1)) % len(RUN_OPTS[key])]
+                        N = 2 if entry != "Processor" else rng.choice([1, 2, 2])
+                        dims_in = [rng.choice([2, 2, 3]) for _ in range(N)] if entry == "Processor" else None
+                        M = N
+                        # (the SC-qubit model has a diagonal drift of a few rad per time unit: its times stay at magnitude 1)
+                        mag = Fraction(1) if entry == "SCQubits" else magnitude(rng)
+                        opts["pulse"] = bool(k % 2)
+                        ps = [pair(rng, rng.choice(["inside", "inside", "boundary", "near"]), mag) for _ in range(M)]
+                        shape = rng.choice(["s/s", "l/l", "s/none", "none/s"] if opts["options"] else ["s/s", "s/none", "none/s"])
+                        t1, t2 = {"s/s": ps[0], "l/l": ([x[0] for x in ps], [x[1] for x in ps]),
+                                  "s/none": (ps[0][0], None), "none/s": (None, ps[0][1])}[shape]
+                        self._run_case(ctx, res, entry, N, dims_in, t1, t2, opts,
+                                       rng.choice(["plus", "product", "entangled", "ghz"]), rng.randint(0, 10 ** 6))
+        res.notes.append("run_state options: entry points " + ", ".join(RUN_ENTRIES) + " x all (args, noisy, c_ops) combinations, the "
+                         "other options (e_ops, options dict, tlist form, solver keyword, ket / density matrix / `states=`) cycled; "
+                         "states or expectation values against the explicit solution with the model's prefactors (+ the caller's "
+                         "collapse operators), no decay only for noisy=False")
+
+    def _run_case(self, ctx, res, entry, N, dims_in, t1, t2, opts, state, seed):
+        from qutip_qip import device
+        dims = list(dims_in) if dims_in else ([3] * N if entry == "SCQubits" else [2] * N)
+        line = f"relax fixed=1 strict={sv()} dims={','.join(map(str, dims))} t1={enc_T(t1)} t2={enc_T(t2)} targets=none"
+        model = ctx.driver("drv_noise").run([line])[0]
+        mst, mels = parse_model(model)
+        wit = {"kind": "run", "entry": entry, "n": N, "dims": dims_in, "t1": json_T(t1), "t2": json_T(t2), "opts": opts,
+               "state": state, "seed": seed}
+        inp = dict(wit); inp["via"] = "run_state"; del inp["kind"]
+        res.case(inp, nontrivial=True, tags=["run_state", "entry=" + entry] + [f"{k}={v}" for k, v in sorted(opts.items())])
+        if mst != "ok":
+            res.disagree(inp, model, "valid times", "model rejects valid times", wit)
+            return
+        rates = [[0.0, 0.0] for _ in dims]
+        for tg, kd, d, r in mels:
+            rates[tg[0]][0 if kd == "destroy" else 1] += float(r)
+        with warnings.catch_warnings():
+            warnings.simplefilter("ignore")
+            try:
+                times, got, expd, tol, what = run_state_case(entry, N, dims_in, t1, t2, opts, state, seed, rates)
+            except Exception as e:  # canonicalised
+                res.disagree(inp, model, "err " + classify_exc(e), "run_state raised for valid times / documented options", wit)
+                return
+        for t, a, b in zip(times, got, expd):
+            err = float(np.abs(a - b).max())
+            if not err <= tol:
+                res.disagree(inp, f"explicit {what} at t={t:.4g}: {np.round(b.ravel()[:4], 6)}", f"run_state: {np.round(a.ravel()[:4], 6)}",
+                             f"run_state({run_opts_text(opts)}): {what} differs from the explicit solution by {err:.3g}", wit)
+                return
+
+    def _run(self, ctx, w):
+        """run_state of an idle processor with relaxation, called with documented options: unless noisy=False is passed the
+        result (states or expectation values) follows exp(-t/t1), exp(-t/t2) (plus the caller's own collapse operators)"""
+        entry, N = w["entry"], int(w["n"])
+        dims_in = w.get("dims")
+        t1, t2 = unjson_T(w["t1"]), unjson_T(w["t2"])
+        dims = list(dims_in) if dims_in else ([3] * N if entry == "SCQubits" else [2] * N)
+        if valid_times(dims, t1, t2) is not True:
+            return False, "not valid relaxation times: outside the property's class"
+        opts = dict(w.get("opts", {}))
+        try:
+            times, got, expd, tol, what = run_state_case(entry, N, dims_in, t1, t2, opts, w.get("state", "plus"),
+                                                         int(w.get("seed", 0)), spec_rates(dims, t1, t2))
+        except Exception as e:
+            return True, f"{entry}.run_state({run_opts_text(opts)}) raised {type(e).__name__}: {str(e)[:100]}"
+        for t, a, b in zip(times, got, expd):
+            err = float(np.abs(a - b).max())
+            if not err <= tol:
+                i = int(np.abs(a - b).argmax())
+                return True, (f"{entry}({N}, t1={json_T(t1)}, t2={json_T(t2)}).run_state({run_opts_text(opts)}): {what} at t={t:.4g}: "
+                              f"{a.ravel()[i]:.9f}, the decay laws give {b.ravel()[i]:.9f}")
+        return False, f"run_state({run_opts_text(opts)}): {what} follows the explicit solution at {len(times)} times"
+
+    def _run_witness(self, rng):
+        entry = rng.choice(RUN_ENTRIES)
+        N = 2 if entry != "Processor" else rng.choice([1, 2, 2, 3])
+        dims_in = [rng.choice([2, 2, 3]) for _ in range(N)] if entry == "Processor" else None
+        if dims_in and int(np.prod(dims_in)) > 12:
+            dims_in = [2] * N
+        mag = Fraction(1) if entry == "SCQubits" else magnitude(rng)
+        ps = [pair(rng, rng.choice(["inside", "inside", "boundary", "near"]), mag) for _ in range(N)]
+        opts = {k: rng.choice(v) for k, v in RUN_OPTS.items()}
+        # with QuTiP's default solver options (nsteps 2500) per-subsystem times that differ by decades are not integrable:
+        # lists only together with an options dict
+        shape = rng.choice(["s/s", "l/l", "s/none", "none/s"] if opts["options"] else ["s/s", "s/none", "none/s"])
+        t1, t2 = {"s/s": ps[0], "l/l": ([x[0] for x in ps], [x[1] for x in ps]),
+                  "s/none": (ps[0][0], None), "none/s": (None, ps[0][1])}[shape]
+        return {"kind": "run", "entry": entry, "n": N, "dims": dims_in, "t1": json_T(t1), "t2": json_T(t2), "opts": opts,
+                "state": rng.choice(["plus", "product", "entangled", "ghz"]), "seed": rng.randint(0, 10 ** 6)}
 
     def _setup_block(self, ctx, res):
         """verdict (and, when accepted, the Lindblad operators) of every entry point against the model, for the alphabet
@@ -1270,6 +1480,9 @@ class C15(PropertyCheck):
         res.notes.append("construction histories: 2-3 processors from the same t1/t2 containers (list / ndarray / scalar), in-place "
                          "edits of the caller's container and of another processor's t1/t2, own in-place edits and "
                          "re-assignments; Lindblad operators of each simulated processor against the model for its own times")
+        # run_state with its options: whatever is passed (args, c_ops, e_ops, options, tlist form, solver, noisy) - unless
+        # noisy=False is said the decay follows the explicit solution with the model's prefactors
+        self._run_block(ctx, res)
         # validation at EVERY processor entry point: exhaustive over a small alphabet of (t1, t2) forms and values
         self._setup_block(ctx, res)
         # malformed stream
@@ -1323,6 +1536,8 @@ class C15(PropertyCheck):
                 return self._build(ctx, w)
             if kind == "setup":
                 return self._setup(ctx, w)
+            if kind == "run":
+                return self._run(ctx, w)
             dims = w["dims"]
             N = len(dims)
             t1, t2 = unjson_T(w["t1"]), unjson_T(w["t2"])
@@ -1785,6 +2000,17 @@ class C15(PropertyCheck):
         first += [{"kind": "setup", "entry": e, "n": 2, "t1": a, "t2": b, "form": "list", "how": h}
                   for e in ENTRY_POINTS for a, b, h in (("-1", None, "qobjevo"), (None, "0", "pulses"), ("50", "-20", "run"),
                                                         ("50", "20", "run"), ("1", "5/2", "qobjevo"))]
+        first += [{"kind": "run", "entry": "Processor", "n": 2, "dims": [2, 2], "t1": ["1", "3"], "t2": ["1/2", "2"],
+                   "opts": {"args": "omega", "pulse": True}, "state": "plus", "seed": 0},
+                  {"kind": "run", "entry": "LinearSpinChain", "n": 2, "dims": None, "t1": "40", "t2": "25",
+                   "opts": {"args": "empty", "init": "ket"}, "state": "plus", "seed": 0},
+                  {"kind": "run", "entry": "SCQubits", "n": 2, "dims": None, "t1": "40", "t2": "25",
+                   "opts": {"args": "empty", "e_ops": "num", "c_ops": "one"}, "state": "product", "seed": 3},
+                  {"kind": "run", "entry": "Processor", "n": 2, "dims": [2, 3], "t1": "2", "t2": "3",
+                   "opts": {"args": "omega", "noisy": True, "c_ops": "list", "options": "tight", "solver": "mesolve",
+                            "tlist": "ndarray", "init": "states-kw"}, "state": "entangled", "seed": 5},
+                  {"kind": "run", "entry": "Processor", "n": 1, "dims": [2], "t1": "1", "t2": "2",
+                   "opts": {"args": "empty", "noisy": False}, "state": "plus", "seed": 0}]
         if strict_variant():
             first += [{"kind": "setup", "entry": e, "n": 2, "t1": ["1", "-1"] + ([] if len(entry_dims(e, 2)) == 2 else ["1"]),
                        "t2": None, "form": f, "how": "qobjevo"} for e in ENTRY_POINTS for f in ("list", "ndarray")]
@@ -1795,7 +2021,7 @@ class C15(PropertyCheck):
         while time.time() - t0 < budget_s:
             w = ctx.rng.choice([self._decay_witness, self._solution_witness, self._history_witness, self._history_witness,
                                 self._targets_witness, self._build_witness, self._reject_witness,
-                                (lambda r: self._setup_witness(r, strict_variant())),
+                                (lambda r: self._setup_witness(r, strict_variant())), self._run_witness,
                                 self._physical_witness])(ctx.rng)
             try:
                 f, d = self.oracle_replay(ctx, w)
@@ -1831,6 +2057,18 @@ class C15(PropertyCheck):
         ws += [{"kind": "setup", "entry": e, "n": 2, "t1": a, "t2": b, "form": "npfloat", "how": "qobjevo"}
                for e in ENTRY_POINTS for a, b in (("-1", None), ("50", "-20"))]
         ws += [self._setup_witness(ctx.rng, strict_variant()) for _ in range(30 if ctx.thorough else 12)]
+        ws += [{"kind": "run", "entry": "Processor", "n": 2, "dims": [2, 2], "t1": ["1", "3"], "t2": ["1/2", "2"],
+                "opts": {"args": "omega", "pulse": True}, "state": "plus", "seed": 0},
+               {"kind": "run", "entry": "LinearSpinChain", "n": 2, "dims": None, "t1": "40", "t2": "25",
+                "opts": {"args": "empty", "init": "ket"}, "state": "plus", "seed": 0},
+               {"kind": "run", "entry": "SCQubits", "n": 2, "dims": None, "t1": "40", "t2": "25",
+                "opts": {"args": "empty", "e_ops": "num", "c_ops": "one"}, "state": "product", "seed": 3},
+               {"kind": "run", "entry": "Processor", "n": 2, "dims": [2, 3], "t1": "2", "t2": "3",
+                "opts": {"args": "omega", "noisy": True, "c_ops": "list", "options": "tight", "solver": "mesolve",
+                         "tlist": "ndarray", "init": "states-kw"}, "state": "entangled", "seed": 5},
+               {"kind": "run", "entry": "Processor", "n": 1, "dims": [2], "t1": "1", "t2": "2",
+                "opts": {"args": "empty", "noisy": False}, "state": "plus", "seed": 0}]
+        ws += [self._run_witness(ctx.rng) for _ in range(25 if ctx.thorough else 10)]
         ws += [self._physical_witness(ctx.rng) for _ in range(10 if ctx.thorough else 3)]
         ws += [{"kind": "history", "dims": [2], "t1": "1", "t2": "3/2", "noises": [["C"]], "calls": ["qobjevo", "run"], "drive": True}]
         ws += [self._history_witness(ctx.rng) for _ in range(20 if ctx.thorough else 6)]
